@@ -42,6 +42,9 @@ PROPS["C10"] = {
     "explanation": "Theorems: the reset discipline of the pooled Runtime as a taint machine - for every history of executions, each ending anywhere after touching any fields, no field a later execution can observe carries a value from an earlier one, provided every used field is assigned by Execute or reset by recover; that coverage condition is discharged by decide over the field lists regenerated from eval.go/exec.go on every run (and the converse: an uncovered field leaks). Tie B: the real Execute in histories vs the stateless model, call by call; direct oracle: the same call returns the same result wherever it occurs in the history, and the parsed templates are structurally unchanged afterwards.",
 }
 
+PROPS["C14"] = evalprop("calls", "Stream 'forms' (direct oracle, no model): one call - reflected fixed/variadic funcs incl. interface-typed variadic tails, methods on a value and on a pointer (fixed and variadic), jet.Func values, built-ins, a non-function - with 0-6 arguments (right or wrong count, nil/invalid and wrong-kind values, values needing conversion such as float->int) written as f(a..), f: a.., a0 | f(rest), a0 | f: rest, a0 | ident | f(rest), ak | f(.., _, ..) for every slot position k, nested in another call and as a pipe source; all spellings must render the same bytes or all fail. Every spelling also runs through the model (stream 'eval'). Stream 'stages': pipelines of 2-5 recording stages in mixed forms with the expected output and call log (each stage once, left to right). Stream 'builtins': each documented built-in on random strings (HTML-special, non-ASCII, separators) against the Go function it is documented to expose, computed by the harness.")
+PROPS["C14"]["lean_modules"] = ["C14"]
+
 PROPS["C19"] = {
     "lean_modules": ["C19"],
     "rule": "stream 'inmem': histories of 3-12 Set/Delete/Exists/Open operations on one InMemLoader over 3 base names, each operation with a random spelling (./, leading/trailing slashes, x/../, //, clean form); non-trivial = contains a Delete. stream 'multi': stacks of 0-3 in-memory loaders with overlapping contents, every path queried with Exists and Open; non-trivial = >= 2 loaders. stream 'fs' (oracle only): OS, http (http.Dir), embed loaders and an OS loader stacked under an empty in-memory loader over one tree (files, nested and empty directories), every canonical path and near-misses.",
@@ -112,6 +115,11 @@ MANIFEST_TEXT = {
         "level": "Machine-checked Lean 4 theorem over all histories: the pooled Runtime's reset discipline (assign at the top of Execute, reset in the deferred recover before Put) leaves no field an execution can observe holding a value from an earlier execution, however that earlier execution ended; the coverage premise is decided by the kernel over the field lists factgen regenerates from eval.go/exec.go each run, so a new field, a dropped reset or a missing defer breaks the proof. Tie: the real Execute run in random histories (failing yields with content, ranges, includes, try) on one goroutine vs the stateless evaluator model, plus a model-independent same-call-same-result oracle and a structural hash of every template before/after.",
         "note": "Purity of the model's execute is by construction (no pooled state in its signature); what is proved is the reset discipline at field granularity, not the heap reachable from those fields (e.g. a caller-supplied VarMap is mutated by Let() by design).",
         "technique": "Lean 4 proof (invariant by induction over histories, premise discharged by decide over regenerated facts) + differential correspondence over execution histories + direct oracle",
+    },
+    "C14": {
+        "level": "Lean 4 theorems about the evaluator model, for all argument lists, signatures, piped values and states: (a) for reflected functions, evaluateArgs of `x | f(a..)` equals evaluateArgs of `f(x, a..)` and of `x | f(.., _, ..)` equals the plain call with the slot filled, whenever x is a value expression; (b) for jet.Func values, Arguments.Get / NumOfArguments of the piped forms coincide index-by-index with the plain form; (c) a pipeline is the left-to-right composition of its stages, each evaluated exactly once; (d) a SafeWriter stage that is not last is a located error; (e) the built-in table regenerated from default.go binds every documented name to the Go function it documents (decide). Tie: differential execution of call-heavy programs + three direct oracles (all spellings agree; recorded stage order; built-ins vs the Go standard library).",
+        "note": "Methods are exercised by the oracle streams only (the model treats the method-carrying type as opaque); url/json/writeJson are checked by the built-ins oracle, not modelled.",
+        "technique": "Lean 4 proof about the evaluator model + decide over regenerated facts + differential correspondence + direct oracles",
     },
     "C19": {
         "level": "Machine-checked Lean 4 theorems over all histories of Set/Delete and all spellings: the in-memory loader is a finite map keyed by the normalised path (set-then-open returns the stored content under every spelling with that normal form, delete removes it under every spelling and nothing else, Exists implies Open); Multi.Open is the first stacked loader's Open that succeeds and Multi keeps Exists => Open. File-system loaders are modelled as a tree of regular files; their agreement with os/http/embed is exercised on real trees (partial by nature).",
